@@ -360,6 +360,16 @@ func TestC17(t *testing.T) {
 			if format == "srt" || format == "vtt" || format == "ssa" {
 				// text in a single-byte encoding (Latin-1 / Windows-1252): lone lead bytes, lone continuation bytes and
 				// overlong forms between ASCII - not UTF-8; accepted or refused, the same way under every delivery
+				// (a single offending byte in the first set: a reader that looks at the bytes chunk by chunk sees it whole or not at all)
+				docs = append(docs, []byte(map[string]string{
+					"srt": "1\n00:00:01,000 --> 00:00:02,000\ncaf\xe9 au lait\n\n2\n00:00:03,000 --> 00:00:04,000\nplain\n",
+					"vtt": "WEBVTT\n\n00:00:01.000 --> 00:00:02.000\ncaf\xe9 au lait\n\n00:00:03.000 --> 00:00:04.000\nplain\n",
+					"ssa": "[Script Info]\nTitle: t\n\n[Events]\nFormat: Marked, Start, End, Text\nDialogue: Marked=0,0:00:01.00,0:00:02.00,caf\xe9 au lait\nDialogue: Marked=0,0:00:03.00,0:00:04.00,plain\n",
+				}[format]), []byte(map[string]string{
+					"srt": "1\n00:00:01,000 --> 00:00:02,000\nplain\n\n2\n00:00:03,000 --> 00:00:04,000\nna\xc3ve\n",
+					"vtt": "WEBVTT\n\n00:00:01.000 --> 00:00:02.000\nplain\n\n00:00:03.000 --> 00:00:04.000\nna\xc3ve\n",
+					"ssa": "[Script Info]\nTitle: t\n\n[Events]\nFormat: Marked, Start, End, Text\nDialogue: Marked=0,0:00:01.00,0:00:02.00,plain\nDialogue: Marked=0,0:00:03.00,0:00:04.00,na\xc3ve\n",
+				}[format]))
 				docs = append(docs, []byte(map[string]string{
 					"srt": "1\n00:00:01,000 --> 00:00:02,000\ncaf\xe9 au lait\n\n2\n00:00:03,000 --> 00:00:04,000\nplain\n\n3\n00:00:05,000 --> 00:00:06,000\n\x80 \xe9\xe8 \xc0\x80 \xf0\x9f\x98 x\n",
 					"vtt": "WEBVTT\n\n00:00:01.000 --> 00:00:02.000\ncaf\xe9 au lait\n\n00:00:03.000 --> 00:00:04.000\nplain\n\n00:00:05.000 --> 00:00:06.000\n\x80 \xe9\xe8 \xc0\x80 \xf0\x9f\x98 x\n",
